@@ -209,3 +209,26 @@ def norm_conds(pr):
             c, t = c[4:-1], not t
         out.append((c, t))
     return out
+
+
+def atomic_facts(pr):
+    """[(atomic condition text, truth)] known on the path: a true `and(..)` makes every conjunct true, a false `or(..)` makes every
+    disjunct false (other compound conditions are kept whole)"""
+    from ..core.terms import _split_top
+    out = []
+
+    def add(c, t):
+        while c.startswith("not(") and c.endswith(")"):
+            c, t = c[4:-1], not t
+        if c.startswith("and(") and c.endswith(")") and t:
+            for part in _split_top(c[4:-1], ","):
+                add(part, True)
+        elif c.startswith("or(") and c.endswith(")") and not t:
+            for part in _split_top(c[3:-1], ","):
+                add(part, False)
+        else:
+            out.append((c, t))
+
+    for c, t, _ in pr.conds:
+        add(c, t)
+    return out
